@@ -1,8 +1,9 @@
 """C08 — malformed or foreign packets are discarded without panic or effect."""
 from . import families as F
 from .simprops import generic_run, sizes, sim_replay
+from .p_endpoint import run_endpoint_correspondence
 LABELS = {"C08", "C01", "C03", "PANIC"}
 def run(ctx):
-    generic_run(ctx, LABELS, [("inject", lambda: F.fam_inject(ctx.rng, sizes(ctx, 150, 1500)))])
+    generic_run(ctx, LABELS, extra=run_endpoint_correspondence, plan=[("inject", lambda: F.fam_inject(ctx.rng, sizes(ctx, 150, 1500)))])
 def replay(ctx, path):
     return sim_replay(ctx, path, LABELS)
